@@ -5,7 +5,8 @@
    token skeletons [sk_zone] (what the lexer hands over, positions, comments and
    mnemonic spellings aside), $GENERATE templates.  The parser model is
    Model/Zone.v, shared with C07. *)
-From Dns Require Import Model.ZoneSpec Proofs.ZoneProofs Proofs.ZoneSpecProofs.
+From Dns Require Import Model.ZoneSpec Proofs.ZoneProofs Proofs.ZoneSpecProofs Proofs.LexRenderProofs.
+Open Scope list_scope.
 Open Scope N_scope.
 
 (* Relative names are completed with the current origin, @ is the origin,
@@ -103,3 +104,160 @@ Theorem include_splice :
     level_body fs_open os_open (Some sub) gen cf rerr k p toks
     = EOpen (c_fs cf) path true (S (c_depth cf)) :: evs ++ k p' rest.
 Proof. exact include_splices. Qed.
+
+(* ---------- from the zone TEXT to the denotation ---------- *)
+(* The plain rendering [render_zone] of an abstract zone (Proofs/LexRenderProofs.v):
+   one entry per line, fields joined by one blank, ended by a newline; the owner
+   as given (omitted: the line starts with the blank), the TTL text, the class
+   and type as their mnemonic or CLASSnnn / TYPEnnn ([class_text], [type_text]:
+   class 255 and types 0, 255, 65535 are written numerically, see the refuted
+   statements below), the RDATA words, strings between double quotes, the generic
+   form as backslash-hash, length, hex words; $ORIGIN and $TTL lines.
+   [render_ok] says when a text IS such a rendering: every word is gathered by the
+   lexer as one string (no unescaped blank, tab, newline, CR, semicolon, quote,
+   parenthesis; a backslash escapes any octet but CR and LF; the word does not end
+   in a backslash) and has at least one ordinary octet; a quoted string has no
+   unescaped quote and does not end in a backslash; an owner does not spell a
+   directive; a TTL text is not read as a type or class by the lexer; a
+   directive's argument does not spell a type mnemonic; class and type codes are
+   below 65536.  The lexer has no limit on the length of a token.
+   Then the lexer delivers, for the text of the zone, exactly a token list that
+   realizes the zone's skeleton: nothing follows the last newline. *)
+Theorem lex_render_plain :
+  forall es : list entry,
+    forallb render_ok es = true ->
+    Forall2 realizes (lex (render_zone es)) (sk_zone es).
+Proof. exact lex_render_plain_proved. Qed.
+
+(* ... and the parser applied to the lexer's output on the zone's text yields
+   exactly the records the zone denotes. *)
+Theorem zone_text_denotes :
+  forall (fs_open os_open : bytes -> option bytes) (d : nat) (cf : cfg)
+         (origin : bytes) (default : option N) (es : list entry) (recs : list rr),
+    origin <> [] -> is_fqdn origin = true -> is_domain_name origin = true ->
+    Forall wf_entry es -> forallb render_ok es = true ->
+    denote origin default es = Some recs ->
+    run_d fs_open os_open d cf origin
+          (match default with Some t => Some (mkTtl t false) | None => None end)
+          (lex (render_zone es)) None
+    = map ERec recs.
+Proof. exact zone_text_denotes_proved. Qed.
+
+(* the hypotheses are satisfiable by a zone with $ORIGIN, $TTL, the owner @, an
+   omitted owner, TTL and class in both orders, two strings (one with escapes),
+   an escaped owner, CLASS255 and the generic RDATA form; both sides of the
+   conclusion are evaluated *)
+Example zone_text_denotes_nonvacuous :
+  render_zone ex2_zone = ex2_text /\
+  Forall wf_entry ex2_zone /\ forallb render_ok ex2_zone = true /\
+  denote (B "test.") None ex2_zone = Some ex2_recs /\
+  run_d no_files no_files maxIncludeDepth (mkCfg [] false false false O) (B "test.") None
+        (lex (render_zone ex2_zone)) None = map ERec ex2_recs.
+Proof.
+  split; [exact ex2_render|]. split; [exact ex2_wf|]. split; [exact ex2_render_ok|].
+  split; [exact ex2_denotes|]. rewrite ex2_render. exact ex2_parses.
+Qed.
+
+(* What the side conditions exclude.  The class mnemonic ANY cannot be written:
+   the lexer takes the word for a type first and marks the type as seen, then
+   makes the token a class; the type that follows stays a plain string and the
+   parser stops with an error.  Written CLASS255 the record is read. *)
+Theorem class_any_refuted :
+  let z := [DRec (mkRecd (Some (B "x")) None (Some 255) false 1 (WAddr (B "192.0.2.1")))] in
+  let text := B ("x ANY A 192.0.2.1" +++ nl1) in
+  ~ Forall2 realizes (lex text) (sk_zone z) /\ failed (ex_run text) = true /\
+  ex_run (render_zone z) = [ERec (mkRR (mkHdr (B "x.test.") 1 255 5) (RAddr [192; 0; 2; 1]) 0)].
+Proof. exact LexRenderProofs.class_any_refuted. Qed.
+
+(* The type mnemonics of 0 and 65535 are never recognised (the lexer looks the
+   upper-cased word up in a table that spells them None and Reserved); NONE is
+   then read as the class. *)
+Theorem type_none_refuted :
+  let z := [DRec (mkRecd (Some (B "x")) None None false 0 (WGen (B "0") []))] in
+  let text := B ("x None \# 0" +++ nl1) in
+  ~ Forall2 realizes (lex text) (sk_zone z) /\ failed (ex_run text) = true /\
+  rlookup type_table 0 = Some (B "None") /\ rlookup type_table 65535 = Some (B "Reserved") /\
+  word_kind (B "None") = Some (KClass 254) /\ word_kind (B "Reserved") = Some KPlain.
+Proof. exact LexRenderProofs.type_none_refuted. Qed.
+
+(* A word made of escaped special octets only does not clear the lexer's space
+   flag: the blank that starts the next line is not delivered. *)
+Theorem escaped_only_word_refuted :
+  let z := [DRec (mkRecd (Some (B "x")) None None false 2 (WName (B "\(")));
+            DRec (mkRecd None None None false 2 (WName (B "a")))] in
+  render_zone z = B ("x NS \(" +++ nl1 +++ " NS a" +++ nl1) /\
+  forallb render_ok z = false /\
+  ~ Forall2 realizes (lex (render_zone z)) (sk_zone z).
+Proof. exact LexRenderProofs.escaped_only_word_refuted. Qed.
+
+(* A TTL text that spells a mnemonic (hs: zero hours zero seconds, and the class
+   Hesiod) is read as the mnemonic; a directive argument that spells a type
+   mnemonic is delivered as a type token. *)
+Theorem ttl_mnemonic_refuted :
+  let z := [DRec (mkRecd (Some (B "x")) (Some (B "hs")) None false 1 (WAddr (B "192.0.2.1")))] in
+  ttl_of_text (B "hs") = Some 0 /\ forallb render_ok z = false /\
+  ~ Forall2 realizes (lex (render_zone z)) (sk_zone z).
+Proof. exact LexRenderProofs.ttl_mnemonic_refuted. Qed.
+Theorem origin_mnemonic_refuted :
+  let z := [DOrigin (B "mx")] in
+  forallb render_ok z = false /\ ~ Forall2 realizes (lex (render_zone z)) (sk_zone z).
+Proof. exact LexRenderProofs.origin_mnemonic_refuted. Qed.
+
+(* ---------- robustness of the rendering ---------- *)
+(* [zone_with Ls es] renders the zone with a layout per entry: the separators
+   in the order of the text (a missing one is the single blank) and the line
+   end (default: the newline).  [lays_ok] admits: as a separator any string of
+   blanks, tabs, parentheses, CR, and newlines within parentheses, that has at
+   least one blank or tab - a closing parenthesis only after an opening one;
+   as a line end: parentheses and CR (and newlines while a parenthesis is
+   open), then, all parentheses closed, the newline, possibly after a comment
+   (semicolon, any octets but newline and a second semicolon).  A comment within
+   parentheses is excluded (known deviation).  For every such layout the lexer
+   delivers tokens realizing the same skeleton ... *)
+Theorem lex_render_layout :
+  forall (Ls : list layout) (es : list entry),
+    forallb render_ok es = true -> lays_ok Ls es = true ->
+    Forall2 realizes (lex (zone_with Ls es)) (sk_zone es).
+Proof. exact lex_render_layout_proved. Qed.
+
+(* ... and the parser yields the records the zone denotes. *)
+Theorem zone_text_layout_denotes :
+  forall (fs_open os_open : bytes -> option bytes) (d : nat) (cf : cfg)
+         (origin : bytes) (default : option N) (Ls : list layout) (es : list entry) (recs : list rr),
+    origin <> [] -> is_fqdn origin = true -> is_domain_name origin = true ->
+    Forall wf_entry es -> forallb render_ok es = true -> lays_ok Ls es = true ->
+    denote origin default es = Some recs ->
+    run_d fs_open os_open d cf origin
+          (match default with Some t => Some (mkTtl t false) | None => None end)
+          (lex (zone_with Ls es)) None
+    = map ERec recs.
+Proof. exact zone_text_layout_denotes_proved. Qed.
+
+(* the plain rendering is the rendering with no layout given, always admissible *)
+Theorem plain_is_a_layout :
+  forall es : list entry, zone_with [] es = render_zone es /\ lays_ok [] es = true.
+Proof. intro es. split; [exact (zone_with_plain es)|exact (lays_ok_plain es)]. Qed.
+
+(* a laid-out text of the worked zone: tab and runs of blanks, CR LF, comments
+   after the last word, parentheses around one field, over two lines, around the
+   strings of a TXT each on its own line; both sides evaluated *)
+Example zone_text_layout_nonvacuous :
+  zone_with ex2_layouts ex2_zone = ex2_laid /\ lays_ok ex2_layouts ex2_zone = true /\
+  run_d no_files no_files maxIncludeDepth (mkCfg [] false false false O) (B "test.") None
+        (lex ex2_laid) None = map ERec ex2_recs.
+Proof. split; [exact ex2_laid_text|]. split; [exact ex2_lays_ok|exact ex2_laid_parses]. Qed.
+
+(* Layouts that do not give the same skeleton: a blank before the line end or
+   before a comment delivers one more blank token; an empty line or a comment
+   line one more newline token.  (On these texts the parser model still reads
+   the same record.) *)
+Theorem extra_token_layouts_refuted :
+  let z := [DRec (mkRecd (Some (B "x")) None None false 1 (WAddr (B "192.0.2.1")))] in
+  let rec1 := [ERec (mkRR (mkHdr (B "x.test.") 1 1 5) (RAddr [192; 0; 2; 1]) 0)] in
+  let t1 := B ("x A 192.0.2.1 " +++ nl1) in
+  let t2 := B ("x A 192.0.2.1 ;c" +++ nl1) in
+  let t3 := B (nl1 +++ "x A 192.0.2.1" +++ nl1) in
+  let t4 := B (";c" +++ nl1 +++ "x A 192.0.2.1" +++ nl1) in
+  Forall (fun t => ~ Forall2 realizes (lex t) (sk_zone z) /\ ex_run t = rec1) [t1; t2; t3; t4] /\
+  ex_run (render_zone z) = rec1.
+Proof. exact LexRenderProofs.extra_token_layouts_refuted. Qed.
